@@ -13,6 +13,9 @@ pub trait VSink: Sized {
             final(self).wf(),
             //@label - vsink.write.accepts_prefix
             r is Ok ==> r->Ok_0 <= buf@.len() && final(self).log() == old(self).log() + buf@.subrange(0, r->Ok_0 as int),
+            //@label - vsink.write.total_fits_u64
+            // ASSUMPTION (physical): a sink never accepts 2^64 bytes in total
+            r is Ok ==> final(self).log().len() <= u64::MAX,
             //@label - vsink.write.err_accepts_nothing
             r is Err ==> final(self).log() == old(self).log(),
             //@label - vsink.write.flushed_unchanged
@@ -56,4 +59,55 @@ pub fn vio_copy_slice_take(buf: &[u8], size: u64, v: &mut Vec<u8>) -> (r: std::i
     ensures r is Ok, r->Ok_0 == smin(size as int, buf@.len() as int),
         final(v)@ == old(v)@ + buf@.subrange(0, r->Ok_0 as int),
         final(v)@.len() == old(v)@.len() + r->Ok_0,
+{ unimplemented!() }
+
+// byteorder::WriteBytesExt::{write_u8, write_u64::<LittleEndian>}  [rewrite R10] = write_all of the 1/8 little-endian bytes
+pub uninterp spec fn le64_bytes(v: u64) -> Seq<u8>;
+pub broadcast proof fn axiom_le64_bytes(v: u64)
+    ensures #[trigger] le64_bytes(v).len() == 8, le_u64(le64_bytes(v)) == v
+{ admit(); }
+
+#[verifier::external_body]
+pub fn vio_write_u8<W: VSink>(w: &mut W, v: u8) -> (r: std::io::Result<()>)
+    requires old(w).wf(),
+    ensures final(w).wf(), final(w).flushed() == old(w).flushed(),
+        r is Ok ==> final(w).log() == old(w).log() + seq![v],
+        r is Err ==> final(w).log() == old(w).log(),
+{ unimplemented!() }
+
+#[verifier::external_body]
+pub fn vio_write_u64_le<W: VSink>(w: &mut W, v: u64) -> (r: std::io::Result<()>)
+    requires old(w).wf(),
+    ensures final(w).wf(), final(w).flushed() == old(w).flushed(),
+        r is Ok ==> final(w).log() == old(w).log() + le64_bytes(v),
+        r is Err ==> exists|k: int| 0 <= k <= 8 && final(w).log() == old(w).log() + le64_bytes(v).subrange(0, k),
+{ unimplemented!() }
+
+// io::copy(&mut SRC.take(N), DEST)  [rewrite R8]: std's documented loop -- reads until N bytes were copied or the
+// source reports end of stream; every byte read is written (write_all) to DEST; returns the number of bytes copied
+#[verifier::external_body]
+pub fn vio_copy_take<S: VRead, W: VSink>(src: &mut S, limit: u64, dest: &mut W) -> (r: std::io::Result<u64>)
+    requires old(src).wf(), old(dest).wf(),
+    ensures final(src).wf(), final(dest).wf(), final(src).data() == old(src).data(), final(dest).flushed() == old(dest).flushed(),
+        r is Ok ==> r->Ok_0 == smin(limit as int, srem(old(src)) as int)
+            && final(src).pos() == old(src).pos() + r->Ok_0
+            && final(dest).log() == old(dest).log() + old(src).data().subrange(old(src).pos() as int, old(src).pos() + r->Ok_0),
+        r is Err ==> final(dest).log().len() >= old(dest).log().len()
+            && final(dest).log().subrange(0, old(dest).log().len() as int) == old(dest).log(),
+{ unimplemented!() }
+
+pub uninterp spec fn le32_bytes(v: u32) -> Seq<u8>;
+pub broadcast proof fn axiom_le32_bytes(v: u32)
+    ensures #[trigger] le32_bytes(v).len() == 4, le_u32(le32_bytes(v)) == v
+{ admit(); }
+
+// byteorder::WriteBytesExt::write_u32::<LittleEndian>  [rewrite R10]
+#[verifier::external_body]
+pub fn vio_write_u32_le<W: VSink>(w: &mut W, v: u32) -> (r: std::io::Result<()>)
+    requires old(w).wf(),
+    ensures final(w).wf(), final(w).flushed() == old(w).flushed(),
+        r is Ok ==> final(w).log() == old(w).log() + le32_bytes(v),
+        r is Ok ==> final(w).log().len() == old(w).log().len() + 4 && final(w).log().subrange(0, old(w).log().len() as int) == old(w).log()
+            && le_u32(final(w).log().subrange(old(w).log().len() as int, old(w).log().len() + 4int)) == v,
+        r is Err ==> final(w).log().len() >= old(w).log().len() && final(w).log().subrange(0, old(w).log().len() as int) == old(w).log(),
 { unimplemented!() }
